@@ -10,6 +10,9 @@ for d in sorted(glob.glob('/verif/seeded/C*-*')):
     res = m.get('confirmed_by_coordinator', {}).get('result', '')
     first = 'missed' if res.startswith('MISSED') else ('tie only' if 'no-failing-input-found' in res.split('After')[0] else 'concrete input')
     final = 'concrete input' if ('with concrete replay' in res or 'concrete' in res.split('After')[-1]) else first
+    fin = m.get('final_head_result', {}).get('result', '')
+    if fin:
+        final = 'exit 0 (obsolete: masked by a later fix)' if fin.startswith('exit 0') else ('tie only' if 'no-failing-input-found' in fin else 'concrete input')
     conf = 'yes' if c and c.get('patch_applies_to_head') and 'ok' in c.get('demo_without_change', '') and '586 passed' in c.get('existing_suite_with_change', '') else ('partly' if c else 'pending')
     rows.append((os.path.basename(d), (m.get('summary') or '')[:110].replace('|', '/'), first, final, conf))
 print('| seed | change (author\'s summary) | first run | after strengthening | demo + suite re-confirmed |')
